@@ -177,6 +177,10 @@ def run(R):
             races += 1
             R.violation(kind, {"case": c, "stderr": h["crash"], "kind": "crash"}, no_input=False)
             continue
+        if isinstance(h, dict) and h.get("deadlock"):
+            R.violation(f"deadlock: concurrent rule-set changes and lookups did not finish within {h.get('after_ms')} ms",
+                        {"case": c, "kind": "deadlock"}, no_input=False)
+            continue
         if not isinstance(h, dict) or "writers" not in h:
             R.violation("harness error in concurrent run: " + json.dumps(h)[:300], {"case": c, "result": h}, no_input=True)
             continue
